@@ -2,7 +2,7 @@
 
 from ..campaign import Result
 from .. import strategies as S
-from ._rt import run_case, shape_labels, RT_ASSUMPTIONS, phase_oracle
+from ._rt import library_job_anomalies, run_case, shape_labels, RT_ASSUMPTIONS, phase_oracle
 
 ID = 'C05'
 LEVEL = 'exploration'
@@ -42,6 +42,7 @@ def evaluate_one(case):
     res = Result()
     trace, ix = run_case(case, run_on=False)
     shape_labels(case, trace, res)
+    library_job_anomalies(trace, res, 'C05')
     if not ix.terminated():
         res.inconclusive = 'nonterminating'
     hits = phase_oracle(ID, 'critical', ix, trace, res)
